@@ -188,7 +188,8 @@ def tablesJson : Json :=
         ("params", .arr (s.params.map fun p => Json.mkObj [
             ("name", .str p.name), ("kind", kindToJson p.kind), ("default", argToJson p.default),
             ("required", .bool p.required), ("emitted", .bool p.emitted), ("read", .bool p.read)]).toArray)]).toArray),
-    ("custom_objects", .arr (customObjects.map Json.str).toArray)]
+    ("custom_objects", .arr (customObjects.map Json.str).toArray),
+    ("keras_activation_names", .arr (kerasActivationNames.map Json.str).toArray)]
 
 /-- arguments on which two layers of class `spec` differ -/
 def diffArgs (spec : LSpec) (a b : Layer) (onlyRead : Bool) : List String :=
